@@ -40,15 +40,27 @@ func c13Policy(a *refsem.Arch, variant int) *seccomp.Policy {
 	for i := 2; i < len(full); i++ {
 		full[i] = seccomp.Condition{Argument: 99, Operation: c13Sentinel, Value: 99}
 	}
-	nwc := make([]seccomp.NameWithConditions, 0, 4)
+	nwc := make([]seccomp.NameWithConditions, 0, 10)
 	nwc = append(nwc, seccomp.NameWithConditions{Name: n[1], Conditions: conds}, seccomp.NameWithConditions{Name: n[1], Conditions: conds[:1]})
+	if variant != 2 {
+		// several DIFFERENT conditional syscalls in one group: their order in the program must not depend on anything but the
+		// policy (a compiler that collects them in a map emits them in the map's order)
+		others := a.SortedNames()
+		added := 0
+		for i := 0; added < 2 && i < len(others); i += 37 {
+			if o := others[i]; o != n[0] && o != n[1] && o != n[2] {
+				nwc = append(nwc, seccomp.NameWithConditions{Name: o, Conditions: seccomp.ArgumentConditions{{Argument: uint32(added % 6), Operation: seccomp.NotEqual, Value: uint64(added)}}})
+				added++
+			}
+		}
+	}
 	if variant == 2 { // small variant: one name, one entry with one condition
 		names = names[:1]
 		nwc = nwc[:1]
 		nwc[0].Conditions = conds[:1]
 	}
 	fullN := nwc[:cap(nwc)]
-	for i := 2; i < len(fullN); i++ {
+	for i := len(nwc); i < len(fullN); i++ {
 		fullN[i] = seccomp.NameWithConditions{Name: c13Sentinel}
 	}
 	groups := make([]seccomp.SyscallGroup, 0, 4)
